@@ -641,8 +641,10 @@ def orc_custom(case):
     d = _vec_diff(seen[0], vectors, 0.0)
     if d:
         return f'transform handed the function something else than the {n_rdm} x {_n_pairs(n_cond)} vectors: {d}'
+    # typed sweep: the function applied to the typed array; whether the library hands the function the typed array or the same
+    # values in a wider type is left open (the domain only has functions for which that matters at most in single precision)
     want = base(_fresh_vectors(vectors) if not case.get('dtype') else _fresh_vectors(vectors).astype(case['dtype']))
-    d = _vec_diff(out.get_vectors(), want, 0.0)
+    d = _vec_diff(out.get_vectors(), want, _tol(case.get('dtype'), 0.0))
     if d:
         return f'transform(rdms, {case["fun"]}): result is not fun(vectors): {d}'
     return None
@@ -1718,12 +1720,17 @@ def _sweeps(run, thorough):
     # ---- custom transform ----------------------------------------------------------------------------------------
     funs = ('cbrt', 'square', 'affine', 'neg', 'rowcenter', 'colindex')
     bd = Bounded(run, 'C17/custom-sweeps', OB_CUSTOM,
-                 '6 functions; typed: values x 10 (+30 for unsigned) in %s, 2-3 RDMs x 4-5 conditions, float32 also with a missing '
-                 'entry; units: x -> s*x+t for %s; sizes: 2 conditions (1 / 3 RDMs, with / without the missing entry), 8 x 12'
+                 '6 functions; typed: values x 10 (+30 for unsigned) in %s (functions free of wrap-around / narrow-precision effects '
+                 'of the dtype itself), 2-3 RDMs x 4-5 conditions, float32 also with a missing entry; units: x -> s*x+t for %s; sizes: 2 conditions (1 / 3 RDMs, with / without the missing entry), 8 x 12'
                  % (list(TYPED), [_utag(u) for u in UNITS]), function='transform')
     i = 0
     for fun in funs:
         for dt in TYPED:
+            # only functions whose value does not hinge on the type the vectors arrive in: no wrap-around (square of 8-bit
+            # integers, negation of unsigned ones), no half / single precision results of numpy for narrow integers (cbrt)
+            if (fun == 'square' and dt in ('int8', 'uint8')) or (fun == 'neg' and np.dtype(dt).kind == 'u') \
+                    or (fun == 'cbrt' and dt in ('int8', 'uint8', 'int16', 'uint16')):
+                continue
             for nan in ((False, True) if dt == 'float32' else (False,)):
                 i += 1
                 case = dict(seed=100 + i, n_rdm=2 + i % 2, n_cond=4 + i % 2, fun=fun, nan=nan, dtype=dt,
